@@ -101,7 +101,7 @@ def histories(rng, tier):
             h.append('updr m op=replace ranges=%d:%d val=T path=slice' % (cell * g, (cell + 1) * g))
         h += ['moc m f=f1', 'mocread r=r f=f1 covord=%d' % covord, 'info r', 'valid r', 'nvalid r', 'valid m', 'nvalid m']
         out.append(h)
-    return out
+    return [gen.file_variants(rng, h) for h in out]
 
 
 def nontrivial(h):
